@@ -29,6 +29,10 @@ func (p *Prog) VerifyForbids(prop string) *FuncResult {
 	res := &FuncResult{Key: "forbid", SSAHash: "callscan"}
 	all := ssautil.AllFunctions(p.SSA)
 	for _, fb := range fbs {
+		if len(fb.Reads) > 0 {
+			p.verifyReads(fb, all, res)
+			continue
+		}
 		exempt := map[string]bool{}
 		for _, e := range fb.Except {
 			exempt[e] = true
@@ -147,4 +151,186 @@ func (p *Prog) VerifyForbids(prop string) *FuncResult {
 		}
 	}
 	return res
+}
+
+// verifyReads decides `forbid read Type.Field from F…`: no function reachable from the roots (static callees,
+// function literals, and for interface calls every method of that name whose receiver implements the
+// interface) loads one of the listed fields or lets its address escape.
+func (p *Prog) verifyReads(fb *Forbid, all map[*ssa.Function]bool, res *FuncResult) {
+	byKey := map[string]*ssa.Function{}
+	byName := map[string][]*ssa.Function{}
+	for fn := range all {
+		byKey[fn.String()] = fn
+		if fn.Signature.Recv() != nil {
+			byName[fn.Name()] = append(byName[fn.Name()], fn)
+		}
+	}
+	var work []*ssa.Function
+	for _, r := range fb.From {
+		key := fb.PkgPath + "." + r
+		if strings.HasPrefix(r, "(") {
+			// (*T).m → (*pkg.T).m
+			i := strings.Index(r, ")")
+			t := r[1:i]
+			star := ""
+			if strings.HasPrefix(t, "*") {
+				star, t = "*", t[1:]
+			}
+			key = "(" + star + fb.PkgPath + "." + t + ")" + r[i+1:]
+		}
+		fn := byKey[key]
+		if fn == nil {
+			res.Obligs = append(res.Obligs, &Oblig{Name: shortKey(fb.PkgPath) + "#forbid:read:orphan:" + sanitize(r), Base: "forbid", Kind: "forbid", Func: fb.PkgPath, Hyp: "true", Goal: "false",
+				Props: fb.Props, Static: "violated", Note: "root function " + key + " not found"})
+			return
+		}
+		work = append(work, fn)
+	}
+	// Interface calls inside the module dispatch to every method of that name whose receiver implements the
+	// interface. Interface calls inside library code (fmt, io, …) can only reach values the module handed to
+	// the library: they dispatch to methods of the concrete types that reachable module code converts to an
+	// interface (a rapid-type-analysis style set, iterated to a fixed point).
+	boxed := map[string]bool{}
+	roots := append([]*ssa.Function{}, work...)
+	var seen map[*ssa.Function]bool
+	var via map[*ssa.Function]string
+	type hit struct {
+		fn   *ssa.Function
+		what string
+		pos  string
+	}
+	var hits []hit
+	for round := 0; round < 8; round++ {
+		nBoxed := len(boxed)
+		work = append([]*ssa.Function{}, roots...)
+		hits = nil
+		seen = map[*ssa.Function]bool{}
+		via = map[*ssa.Function]string{}
+		for len(work) > 0 {
+			fn := work[len(work)-1]
+			work = work[:len(work)-1]
+			if seen[fn] || fn.Blocks == nil {
+				seen[fn] = true
+				continue
+			}
+			seen[fn] = true
+			for _, af := range fn.AnonFuncs {
+				work = append(work, af)
+			}
+			inModule := fn.Pkg != nil && strings.HasPrefix(fn.Pkg.Pkg.Path(), strings.TrimSuffix(modulePrefix, "/"))
+			if fn.Pkg == nil {
+				root := fn
+				for root.Parent() != nil {
+					root = root.Parent()
+				}
+				inModule = root.Pkg != nil && strings.HasPrefix(root.Pkg.Pkg.Path(), strings.TrimSuffix(modulePrefix, "/"))
+			}
+			for _, b := range fn.Blocks {
+				for _, in := range b.Instrs {
+					if mi, ok := in.(*ssa.MakeInterface); ok && inModule {
+						boxed[types.TypeString(mi.X.Type(), nil)] = true
+					}
+					switch i := in.(type) {
+					case *ssa.FieldAddr:
+						if pt, ok := i.X.Type().Underlying().(*types.Pointer); ok {
+							if nt, ok := pt.Elem().(*types.Named); ok {
+								if st, ok := nt.Underlying().(*types.Struct); ok {
+									name := nt.Obj().Name() + "." + st.Field(i.Field).Name()
+									for _, w := range fb.Reads {
+										if w != name {
+											continue
+										}
+										read := false
+										if refs := i.Referrers(); refs != nil {
+											for _, r := range *refs {
+												switch u := r.(type) {
+												case *ssa.Store:
+													if u.Addr != i {
+														read = true
+													}
+												case *ssa.DebugRef:
+												default:
+													read = true // load, or the address escapes
+												}
+											}
+										}
+										if read {
+											hits = append(hits, hit{fn, "read " + name, p.Fset.Position(in.Pos()).String()})
+										}
+									}
+								}
+							}
+						}
+					case *ssa.Field:
+						if nt, ok := i.X.Type().(*types.Named); ok {
+							if st, ok := nt.Underlying().(*types.Struct); ok {
+								name := nt.Obj().Name() + "." + st.Field(i.Field).Name()
+								for _, w := range fb.Reads {
+									if w == name {
+										hits = append(hits, hit{fn, "read " + name, p.Fset.Position(in.Pos()).String()})
+									}
+								}
+							}
+						}
+					}
+					var cc *ssa.CallCommon
+					switch i := in.(type) {
+					case *ssa.Call:
+						cc = &i.Call
+					case *ssa.Defer:
+						cc = &i.Call
+					case *ssa.Go:
+						cc = &i.Call
+					}
+					if cc == nil {
+						continue
+					}
+					if callee := cc.StaticCallee(); callee != nil {
+						if _, ok := via[callee]; !ok {
+							via[callee] = shortKey(fn.String())
+						}
+						work = append(work, callee)
+						continue
+					}
+					if cc.IsInvoke() {
+						it, _ := cc.Value.Type().Underlying().(*types.Interface)
+						for _, m := range byName[cc.Method.Name()] {
+							rt := m.Signature.Recv().Type()
+							if !inModule && !boxed[types.TypeString(rt, nil)] {
+								continue
+							}
+							if it == nil || types.Implements(rt, it) {
+								if _, ok := via[m]; !ok {
+									via[m] = shortKey(fn.String()) + " (interface call " + cc.Method.Name() + " at " + p.Fset.Position(in.Pos()).String() + ")"
+								}
+								work = append(work, m)
+							}
+						}
+					}
+				}
+			}
+		}
+		if len(boxed) == nBoxed {
+			break
+		}
+	}
+	what := strings.Join(fb.Reads, ",")
+	if len(hits) == 0 {
+		res.Obligs = append(res.Obligs, &Oblig{Name: shortKey(fb.PkgPath) + "#forbid:read:" + sanitize(what), Base: "forbid", Kind: "forbid", Func: fb.PkgPath, Hyp: "true", Goal: "true", Props: fb.Props,
+			Static: "ok", Note: fmt.Sprintf("%d functions reachable from %s scanned (static calls, function literals, interface dispatch by method name and implemented interface), none reads %s", len(seen), strings.Join(fb.From, ", "), what)})
+		return
+	}
+	sort.Slice(hits, func(i, j int) bool { return hits[i].pos < hits[j].pos })
+	cnt := map[string]int{}
+	for _, h := range hits {
+		n := shortKey(h.fn.String()) + "#forbid:" + sanitize(h.what)
+		cnt[n]++
+		if cnt[n] > 1 {
+			n = fmt.Sprintf("%s@%d", n, cnt[n])
+		}
+		o := &Oblig{Name: n, Base: "forbid", Kind: "forbid", Func: h.fn.String(), Hyp: "true", Goal: "false", Props: fb.Props,
+			Static: "violated", Note: fmt.Sprintf("%s (reachable from %s via %s) has a %s at %s", shortKey(h.fn.String()), strings.Join(fb.From, ", "), via[h.fn], h.what, h.pos)}
+		o.Pos = p.Fset.Position(h.fn.Pos())
+		res.Obligs = append(res.Obligs, o)
+	}
 }
